@@ -42,6 +42,9 @@ def cases(tier, seed):
                 "init": rng.choice(["exact", "inexact"]), "struct": (2 * ((k // 9) % 4) + (k % 3) + seed) % 8, "span": rng.uniform(0.2, 0.8),
                 "field": field.to_json(), "inits": [[str(x) for x in b] for b in inits], "t0": str(t0),
                 "base": rng.choice([None, 0.5, 3.0]), "seedc": rng.randrange(10**9), "cost": 6.0,
+                # reverse-time solves (decreasing grid) are supported; their preconditioners dt^k/k! change sign with k, which
+                # nothing on an increasing grid exercises (seed C13-s3 took |.| of the output scaling in the mean)
+                "reverse_time": k % 3 == 0 and (k // 9) % 2 == 1,
             }
         )
     return out
@@ -199,6 +202,9 @@ def run_case(case):
         d = cfg["d"]
         t0 = cfg["prob"]["t0"]
         grid = np.concatenate([[t0], t0 + np.sort(r.uniform(0.1, 1.0, size=T - 1)) * case["span"]])
+        if case.get("reverse_time") and case["source"] == "fixedinterval":
+            grid = 2 * t0 - grid
+            obs["reverse_time_cases"] = 1
         if case["source"] == "fixedinterval":
             sol = jax.jit(ivpsolve.solve_fixed_grid(solver=cfg["solver"]))(cfg["prior"], grid=jnp.asarray(grid))
         else:
